@@ -14,6 +14,8 @@ CLAIMED = {
              note="float() of base_mda_solver stubbed to identity; tolerance written into settings.__dict__ (pydantic needs a concrete number); sqrt/norm through auxiliary variables s>=0, s^2=t; float64 as reals."),
  "C08": dict(text="For ALL dependency graphs on n<=3 disciplines with self-loops (and all loop-free graphs on 4; thorough: all 65536 graphs on 4), duplicated names and extra shared inputs: the real execution sequence is a valid schedule (each discipline once, groups = mutually reachable sets, producers strictly earlier), strong/weak coupling sets as documented, MDAChain wraps every cyclic group in an MDA in producer-before-consumer order; for all acyclic graphs and listing orders, MDOChain/MDAChain outputs equal the term obtained by substituting producers into consumers (uninterpreted disciplines, all inputs).", ref="DESIGN.md 3/C08",
              note="in the graph/mdachain harnesses each path is concrete once the edge flags are chosen: the solver contributes exhaustive pruned enumeration and counterexamples, not intra-path reasoning; one coupling output per discipline, sizes 1; order of members inside a group not asserted."),
+ "C02": dict(text="(a) numeric: for all symbolic bounds (l<u, l==u, infinite, one-sided), integer variables with concrete bounds, all vectors and 2xn batches (n<=3): normalize/unnormalize/gradient scalings/transform are the stated affine maps and mutually inverse, membership raises exactly outside [l-tol,u+tol] or on non-integral integers, projection is the clip; (b) histories: every sequence of <=2-3 (thorough 3-4) public edit operations and cache-filling queries on small spaces keeps all views (names, sizes, indices, bounds, current value, normalization of a symbolic vector) equal to an independent reference model.", ref="DESIGN.md 3/C02",
+             note="bounds injected into Variable.__dict__ (numeric part); history part uses concrete dyadic bounds through the public API, each path is concrete apart from the symbolic probe vector; out= buffers, out-of-bounds normalization on l==u components and position of a renamed variable not asserted."),
 }
 NA = {
  "C07": "JacobianAssembly/CoupledSystem go through scipy.sparse, SuperLU and Krylov solvers: no symbolic value survives csr_matrix(); encoding would verify a model of scipy, not the code (DESIGN.md C07).",
